@@ -17,7 +17,7 @@ import (
 
 // walkErr visits every error reachable through Unwrap() error, Unwrap() []error and ChildErrors().
 // f is called with the depth of the error; the walk is pre-order and complete (f cannot stop it).
-func walkErr(err error, depth int, f func(e error, depth int)) {
+func dmWalkErr(err error, depth int, f func(e error, depth int)) {
 	if err == nil || depth > 80 {
 		return
 	}
@@ -28,26 +28,26 @@ func walkErr(err error, depth int, f func(e error, depth int)) {
 	f(err, depth)
 	seen := false
 	if u, ok := err.(interface{ Unwrap() error }); ok {
-		walkErr(u.Unwrap(), depth+1, f)
+		dmWalkErr(u.Unwrap(), depth+1, f)
 		seen = true
 	}
 	if u, ok := err.(interface{ Unwrap() []error }); ok {
 		for _, e := range u.Unwrap() {
-			walkErr(e, depth+1, f)
+			dmWalkErr(e, depth+1, f)
 		}
 		seen = true
 	}
 	if !seen {
 		if p, ok := err.(errors.ParentError); ok {
 			for _, e := range p.ChildErrors() {
-				walkErr(e, depth+1, f)
+				dmWalkErr(e, depth+1, f)
 			}
 		}
 	}
 }
 
 // verdict is the classified outcome of one execution.
-type verdict struct {
+type dmVerdict struct {
 	Class  string // "" (success) | internal | crash | checker | parse | user | external
 	GoType string // Go type of the innermost internal error (without package / pointer)
 	Msg    string // first line of its message
@@ -57,7 +57,7 @@ type verdict struct {
 }
 
 // Detail is the stable part of a failure: type, normalized message and raising function.
-func (v verdict) Detail() string {
+func (v dmVerdict) Detail() string {
 	d := v.GoType + ": " + v.Msg
 	if v.Frame != "" {
 		d += " @" + v.Frame
@@ -66,11 +66,11 @@ func (v verdict) Detail() string {
 }
 
 // sameFailure is the predicate preserved by the shrinker.
-func (v verdict) sameFailure(w verdict) bool {
-	return v.Class == w.Class && v.GoType == w.GoType && normMsg(v.Msg) == normMsg(w.Msg) && v.Frame == w.Frame
+func (v dmVerdict) sameFailure(w dmVerdict) bool {
+	return v.Class == w.Class && v.GoType == w.GoType && dmNormMsg(v.Msg) == dmNormMsg(w.Msg) && v.Frame == w.Frame
 }
 
-func typeName(e any) string {
+func dmTypeName(e any) string {
 	n := fmt.Sprintf("%T", e)
 	n = strings.TrimLeft(n, "*")
 	if i := strings.LastIndex(n, "."); i >= 0 {
@@ -79,7 +79,7 @@ func typeName(e any) string {
 	return n
 }
 
-func firstLine(s string) string {
+func dmFirstLine(s string) string {
 	s = strings.TrimSpace(s)
 	if i := strings.IndexByte(s, '\n'); i >= 0 {
 		s = s[:i]
@@ -95,17 +95,17 @@ func firstLine(s string) string {
 // health errors, ...) or a Go runtime error is anywhere in the error chain; "crash" for a Go panic that
 // escaped the runtime; "checker"/"parse" for rejected programs; "external" for host errors; "user"
 // for everything else. Classification is by Go type, never by message text.
-func classifyC01(err error, pnc any) (class string, detail string) {
-	v := classify(err, pnc)
+func dmClassifyC01(err error, pnc any) (class string, detail string) {
+	v := dmClassify(err, pnc)
 	return v.Class, v.Detail()
 }
 
-func classify(err error, pnc any) verdict {
+func dmClassify(err error, pnc any) dmVerdict {
 	if pnc != nil {
-		v := verdict{Class: "crash", GoType: typeName(pnc), Msg: firstLine(fmt.Sprint(pnc))}
+		v := dmVerdict{Class: "crash", GoType: dmTypeName(pnc), Msg: dmFirstLine(fmt.Sprint(pnc))}
 		if e, ok := pnc.(error); ok {
 			// a panic that escaped the runtime; it may carry an internal error with a stack
-			w := classify(e, nil)
+			w := dmClassify(e, nil)
 			if w.Class == "internal" {
 				w.Class = "crash"
 				return w
@@ -114,7 +114,7 @@ func classify(err error, pnc any) verdict {
 		return v
 	}
 	if err == nil {
-		return verdict{}
+		return dmVerdict{}
 	}
 	var (
 		internal      error
@@ -125,7 +125,7 @@ func classify(err error, pnc any) verdict {
 		parse         bool
 		external      bool
 	)
-	walkErr(err, 0, func(e error, d int) {
+	dmWalkErr(err, 0, func(e error, d int) {
 		switch e.(type) {
 		case *sema.CheckerError, sema.CheckerError:
 			checker = true
@@ -142,19 +142,19 @@ func classify(err error, pnc any) verdict {
 		}
 	})
 	if internal != nil || goErr != nil {
-		v := verdict{Class: "internal"}
+		v := dmVerdict{Class: "internal"}
 		if internal != nil {
-			v.GoType = typeName(internal)
+			v.GoType = dmTypeName(internal)
 			if ue, ok := internal.(errors.UnexpectedError); ok {
-				v.Msg = firstLine(ue.Err.Error())
-				v.Frame, v.Phase, v.Stack = raisingFrame(string(ue.Stack))
+				v.Msg = dmFirstLine(ue.Err.Error())
+				v.Frame, v.Phase, v.Stack = dmRaisingFrame(string(ue.Stack))
 			} else {
-				v.Msg = firstLine(internal.Error())
+				v.Msg = dmFirstLine(internal.Error())
 			}
 			v.Msg = strings.TrimSpace(strings.TrimPrefix(v.Msg, errors.InternalErrorMessagePrefix))
 		} else {
 			v.GoType = "GoRuntimeError"
-			v.Msg = firstLine(goErr.Error())
+			v.Msg = dmFirstLine(goErr.Error())
 		}
 		if goErr != nil && v.GoType == "UnexpectedError" {
 			v.GoType = "UnexpectedError(GoRuntimeError)"
@@ -163,40 +163,40 @@ func classify(err error, pnc any) verdict {
 	}
 	switch {
 	case parse:
-		return verdict{Class: "parse"}
+		return dmVerdict{Class: "parse"}
 	case checker:
-		return verdict{Class: "checker"}
+		return dmVerdict{Class: "checker"}
 	case external:
-		return verdict{Class: "external", GoType: typeName(err), Msg: firstLine(err.Error())}
+		return dmVerdict{Class: "external", GoType: dmTypeName(err), Msg: dmFirstLine(err.Error())}
 	}
 	// innermost error type, for the distribution only
 	var inner error
-	walkErr(err, 0, func(e error, d int) {
+	dmWalkErr(err, 0, func(e error, d int) {
 		if _, ok := e.(errors.UserError); ok {
 			inner = e
 		}
 	})
-	v := verdict{Class: "user"}
+	v := dmVerdict{Class: "user"}
 	if inner != nil {
-		v.GoType = typeName(inner)
+		v.GoType = dmTypeName(inner)
 	} else {
 		// neither user nor internal nor external: the runtime wraps such errors in UnexpectedError,
 		// so this is unexpected; treat as internal to be safe (never observed on the pinned tree)
 		v.Class = "internal"
-		v.GoType = typeName(err)
-		v.Msg = firstLine(err.Error())
+		v.GoType = dmTypeName(err)
+		v.Msg = dmFirstLine(err.Error())
 	}
 	return v
 }
 
-var frameRe = regexp.MustCompile(`^github\.com/onflow/(cadence|atree)/([A-Za-z0-9_/\-]+)\.(.+?)(\(.*)?$`)
+var dmFrameRe = regexp.MustCompile(`^github\.com/onflow/(cadence|atree)/([A-Za-z0-9_/\-]+)\.(.+?)(\(.*)?$`)
 
 // raisingFrame extracts from a debug.Stack() dump the function that raised the error and the phase
 // in which it happened: the frames considered are the onflow frames after the last `panic(` line
 // (recovered Go panic), else all onflow frames, without the errors package and the panic-conversion
 // helpers. phase = "checker" / "parser" when the stack runs through the checker / parser and not through
 // an execution engine; then the reported function is the first frame of that package.
-func raisingFrame(stack string) (fn string, phase string, all string) {
+func dmRaisingFrame(stack string) (fn string, phase string, all string) {
 	if stack == "" {
 		return "", "", ""
 	}
@@ -213,7 +213,7 @@ func raisingFrame(stack string) (fn string, phase string, all string) {
 		if strings.HasPrefix(l, "\t") || l == "" {
 			continue
 		}
-		m := frameRe.FindStringSubmatch(l)
+		m := dmFrameRe.FindStringSubmatch(l)
 		if m == nil {
 			continue
 		}
@@ -225,7 +225,7 @@ func raisingFrame(stack string) (fn string, phase string, all string) {
 			continue
 		}
 		// strip closure suffixes and receiver decoration
-		f = reClosure.ReplaceAllString(f, "")
+		f = dmReClosure.ReplaceAllString(f, "")
 		f = strings.NewReplacer("(*", "", ")", "", "[...]", "").Replace(f)
 		if p == "runtime" && (strings.HasPrefix(f, "UserPanicToError") || strings.HasPrefix(f, "Recover") || strings.HasPrefix(f, "GetWrappedError")) {
 			continue
@@ -271,23 +271,23 @@ func raisingFrame(stack string) (fn string, phase string, all string) {
 	return frames[0].pkg + "." + frames[0].fn, phase, all
 }
 
-var reClosure = regexp.MustCompile(`\.func\d+(\.\d+)*$`)
+var dmReClosure = regexp.MustCompile(`\.func\d+(\.\d+)*$`)
 
 var (
-	reBacktick = regexp.MustCompile("`[^`]*`")
-	reQuoted   = regexp.MustCompile(`"[^"]*"|'[^']*'`)
-	reHex      = regexp.MustCompile(`0x[0-9a-fA-F]+`)
-	reNum      = regexp.MustCompile(`[0-9]+`)
-	reSpace    = regexp.MustCompile(`\s+`)
+	dmReBacktick = regexp.MustCompile("`[^`]*`")
+	dmReQuoted   = regexp.MustCompile(`"[^"]*"|'[^']*'`)
+	dmReHex      = regexp.MustCompile(`0x[0-9a-fA-F]+`)
+	dmReNum      = regexp.MustCompile(`[0-9]+`)
+	dmReSpace    = regexp.MustCompile(`\s+`)
 )
 
 // normMsg strips identifiers in quotes, types in backticks, numbers and addresses from a message.
-func normMsg(s string) string {
-	s = reBacktick.ReplaceAllString(s, "_")
-	s = reQuoted.ReplaceAllString(s, "_")
-	s = reHex.ReplaceAllString(s, "N")
-	s = reNum.ReplaceAllString(s, "N")
-	s = reSpace.ReplaceAllString(strings.TrimSpace(s), " ")
+func dmNormMsg(s string) string {
+	s = dmReBacktick.ReplaceAllString(s, "_")
+	s = dmReQuoted.ReplaceAllString(s, "_")
+	s = dmReHex.ReplaceAllString(s, "N")
+	s = dmReNum.ReplaceAllString(s, "N")
+	s = dmReSpace.ReplaceAllString(strings.TrimSpace(s), " ")
 	if len(s) > 100 {
 		s = s[:100]
 	}
@@ -297,7 +297,7 @@ func normMsg(s string) string {
 // ------------------------------------------------------------------ failure keys
 
 // programText is the concatenated source of a scenario (all steps), used by the syntactic detectors.
-func (sc *Scenario) programText() string {
+func (sc *dmScenario) programText() string {
 	var sb strings.Builder
 	for _, st := range sc.Steps {
 		sb.WriteString(st.Code)
@@ -308,65 +308,69 @@ func (sc *Scenario) programText() string {
 
 var (
 	// `x.f[i] <-> y`, `y <-> self.f[k]`: swap with an index expression on a member as one operand
-	reSwapMemberIndex = regexp.MustCompile(`[A-Za-z_][A-Za-z0-9_]*(\.[A-Za-z_][A-Za-z0-9_]*)+\[[^\]\n]*\]\s*<->|<->\s*[A-Za-z_][A-Za-z0-9_]*(\.[A-Za-z_][A-Za-z0-9_]*)+\[[^\]\n]*\]`)
+	dmReSwapMemberIndex = regexp.MustCompile(`[A-Za-z_][A-Za-z0-9_]*(\.[A-Za-z_][A-Za-z0-9_]*)+\[[^\]\n]*\]\s*<->|<->\s*[A-Za-z_][A-Za-z0-9_]*(\.[A-Za-z_][A-Za-z0-9_]*)+\[[^\]\n]*\]`)
 	// `(c ? a : b)?.` optional chaining directly on a parenthesized conditional
-	reOptChainCond = regexp.MustCompile(`\([^()\n]*(\([^()\n]*\)[^()\n]*)*\?[^()\n]*(\([^()\n]*\)[^()\n]*)*:[^()\n]*(\([^()\n]*\)[^()\n]*)*\)\s*\?\.`)
-	reAdd          = regexp.MustCompile(`\.contracts\.add\(`)
-	reRemove       = regexp.MustCompile(`\.contracts\.remove\(`)
-	reBorrowC      = regexp.MustCompile(`\.contracts\.borrow<`)
-	reEmitCond     = regexp.MustCompile(`(?s)(pre|post)\s*\{[^}]*emit\s`)
-	reImport       = regexp.MustCompile(`(?m)^\s*import\s`)
-	reRangeArity   = regexp.MustCompile(`InclusiveRange<[^<>]*,`)
-	reDestroyEvent = regexp.MustCompile(`event\s+ResourceDestroyed`)
+	// a conditional expression with a `nil` branch: `c ? x : nil`, `c ? nil : x`
+	dmReCondNil      = regexp.MustCompile(`\?[^?:\n]*:\s*nil\b|\?\s*nil\s*:`)
+	dmReOptChainCond = regexp.MustCompile(`\([^()\n]*(\([^()\n]*\)[^()\n]*)*\?[^()\n]*(\([^()\n]*\)[^()\n]*)*:[^()\n]*(\([^()\n]*\)[^()\n]*)*\)\s*\?\.`)
+	dmReAdd          = regexp.MustCompile(`\.contracts\.add\(`)
+	dmReRemove       = regexp.MustCompile(`\.contracts\.remove\(`)
+	dmReBorrowC      = regexp.MustCompile(`\.contracts\.borrow<`)
+	dmReEmitCond     = regexp.MustCompile(`(?s)(pre|post)\s*\{[^}]*emit\s`)
+	dmReImport       = regexp.MustCompile(`(?m)^\s*import\s`)
+	dmReRangeArity   = regexp.MustCompile(`InclusiveRange<[^<>]*,`)
+	dmReDestroyEvent = regexp.MustCompile(`event\s+ResourceDestroyed`)
 )
 
 // featureSignature names the known defect shape a (shrunk) failing program exhibits, from the Go type
 // of the error, the raising function and a few syntactic detectors; "" when none matches.
 // Every signature requires BOTH the specific error and the specific syntax, so that a new defect
 // cannot be absorbed by a known key.
-func featureSignature(v verdict, engine string, text string, failingStepKind string) string {
-	msg := normMsg(v.Msg)
+func dmFeatureSignature(v dmVerdict, engine string, text string, failingStepKind string) string {
+	msg := dmNormMsg(v.Msg)
 	switch {
-	case v.GoType == "InvalidatedResourceError" && engine == "interpreter" && reSwapMemberIndex.MatchString(text):
+	case v.GoType == "InvalidatedResourceError" && engine == "interpreter" && dmReSwapMemberIndex.MatchString(text):
 		return "swap-index-on-resource-field"
-	case v.GoType == "MemberAccessTypeError" && engine == "interpreter" && reOptChainCond.MatchString(text):
+	case v.GoType == "MemberAccessTypeError" && engine == "interpreter" && strings.Contains(text, "?.") &&
+		(dmReOptChainCond.MatchString(text) || dmReCondNil.MatchString(text)):
+		// optional chaining on the (unboxed) value of a conditional with a nil branch
 		return "optchain-on-conditional"
 	case strings.HasPrefix(v.GoType, "UnexpectedError") && engine == "interpreter" &&
 		strings.Contains(v.Msg, "nil pointer dereference") && strings.HasSuffix(v.Frame, "CompositeValue.SetNestedVariables") &&
-		reAdd.MatchString(text) && reBorrowC.MatchString(text):
+		dmReAdd.MatchString(text) && dmReBorrowC.MatchString(text):
 		return "contracts-borrow-after-add"
-	case v.GoType == "UnreferencedRootSlabsError" && reAdd.MatchString(text) && reRemove.MatchString(text):
+	case v.GoType == "UnreferencedRootSlabsError" && dmReAdd.MatchString(text) && dmReRemove.MatchString(text):
 		return "contracts-add-then-remove"
 	case strings.HasPrefix(v.GoType, "UnexpectedError") && engine == "vm" && strings.HasPrefix(msg, "cannot find global declaration") &&
-		reEmitCond.MatchString(text) && reImport.MatchString(text):
+		dmReEmitCond.MatchString(text) && dmReImport.MatchString(text):
 		return "vm-inherited-emit-condition-foreign-type"
 	}
 	return ""
 }
 
 // failureKey builds the key of a failure from its verdict, engine and (shrunk) program.
-func failureKey(v verdict, engine string, sc *Scenario, failingStep int) string {
+func dmFailureKey(v dmVerdict, engine string, sc *dmScenario, failingStep int) string {
 	text := sc.programText()
-	kind := ""
+	dmKind := ""
 	if failingStep >= 0 && failingStep < len(sc.Steps) {
-		kind = sc.Steps[failingStep].Kind
+		dmKind = sc.Steps[failingStep].Kind
 	}
 	// crashes of the checker / parser: engine independent
 	if v.Phase != "" {
 		sig := v.Frame
 		switch {
-		case strings.Contains(v.Stack, "Checker.checkDefaultDestroyEvent") && reDestroyEvent.MatchString(text):
+		case strings.Contains(v.Stack, "Checker.checkDefaultDestroyEvent") && dmReDestroyEvent.MatchString(text):
 			sig = "checkDefaultDestroyEvent"
-		case strings.Contains(v.Stack, "InclusiveRangeType") && reRangeArity.MatchString(text):
+		case strings.Contains(v.Stack, "InclusiveRangeType") && dmReRangeArity.MatchString(text):
 			sig = "InclusiveRangeType-wrong-arity"
 		default:
-			sig = v.Frame + ":" + normMsg(v.Msg)
+			sig = v.Frame + ":" + dmNormMsg(v.Msg)
 		}
 		return v.Phase + "-crash:" + sig
 	}
-	sig := featureSignature(v, engine, text, kind)
+	sig := dmFeatureSignature(v, engine, text, dmKind)
 	if sig == "" {
-		sig = "other:" + normMsg(v.Msg)
+		sig = "other:" + dmNormMsg(v.Msg)
 		if v.Frame != "" {
 			sig += "@" + v.Frame
 		}
@@ -376,6 +380,6 @@ func failureKey(v verdict, engine string, sc *Scenario, failingStep int) string 
 }
 
 // engineIndependent reports whether a key carries no engine (checker / parser crashes).
-func engineIndependent(key string) bool {
+func dmEngineIndependent(key string) bool {
 	return strings.HasPrefix(key, "checker-crash:") || strings.HasPrefix(key, "parser-crash:")
 }
